@@ -111,16 +111,18 @@ def run_family(name, module, body, inputs, describe, expected=None, procs=None, 
 
 
 def inflated_inputs(n, k, maxlen):
+    """the family formula is a conjunction of two independent parts (knotted k-arc diagram on n positions; k stem lengths in 1..maxlen):
+    each part is enumerated by AllSAT and the models are combined (a joint AllSAT over 10^4..10^5 models is quadratic in the blocking clauses)"""
     P, cons = pairing_vars(n)
+    diagrams, nq1, dt1 = allsat(P, cons + [narcs_formula(P, k), knotted_formula(P)])
     L = [z3.Int(f"l{i}") for i in range(k)]
-    cons = cons + [narcs_formula(P, k), knotted_formula(P)] + [z3.And(x >= 1, x <= maxlen) for x in L]
-    models, nq, dt = allsat(P + L, cons)
-    return [(m[:n], m[n:]) for m in models], nq, dt
+    lens, nq2, dt2 = allsat(L, [z3.And(x >= 1, x <= maxlen) for x in L])
+    return [(d, l) for d in diagrams for l in lens], nq1 + nq2, dt1 + dt2
 
 
 def family_inputs(kind, n, kmax):
     P, cons = pairing_vars(n)
+    tails, nq1, dt1 = allsat(P, cons + [knotted_formula(P)])
     K = z3.Int("k")
-    cons = cons + [knotted_formula(P), K >= 0, K <= kmax]
-    models, nq, dt = allsat([K] + P, cons)
-    return [(kind, m[0], m[1:]) for m in models], nq, dt
+    ks, nq2, dt2 = allsat([K], [K >= 0, K <= kmax])
+    return [(kind, k[0], t) for k in ks for t in tails], nq1 + nq2, dt1 + dt2
